@@ -145,6 +145,7 @@ type Machine struct {
 	depth     int
 	onceDone  map[string]bool
 	lockEdges map[[2]string]bool
+	spawned   int
 	overrides map[string]*FuncV
 	ghost     map[string]Value
 	stack     []string
@@ -184,6 +185,7 @@ func (m *Machine) reset(prefix []int) {
 	m.depth = 0
 	m.onceDone = map[string]bool{}
 	m.lockEdges = nil
+	m.spawned = 0
 	m.overrides = map[string]*FuncV{}
 	m.ghost = map[string]Value{}
 	m.stack = nil
@@ -754,6 +756,8 @@ func (m *Machine) exec(fr *frame, ins ssa.Instruction) {
 			m.GoInline = false
 			fnv(args)
 			m.GoInline = true
+		} else {
+			m.spawned++
 		}
 	case *ssa.Send:
 		ch := m.get(fr, ins.Chan).(*ChanV)
